@@ -396,6 +396,7 @@ func c01Query(a *A, r *Roles, ar *Arms) {
 	}
 	a.check(okCat, "C01-R1", "query-category@parser", w.posOf(cat), "category of the decoded SQL text", "the statement category is not computed from the decoded query's SQL")
 	n := 0
+	good := map[ssa.Value]bool{}
 	instrs(r.Parser, func(in ssa.Instruction) {
 		al, ok := in.(*ssa.Alloc)
 		if !ok || !typeIs(al.Type(), rootPath, "StreamEvent") {
@@ -431,11 +432,44 @@ func c01Query(a *A, r *Roles, ar *Arms) {
 				}
 			}
 		}
+		if okType && okTS && okQ {
+			good[al] = true
+		}
 		a.check(okType && okTS && okQ, "C01-R1", key, w.posOf(al), "{Type: category, Query: decoded query, Timestamp: this event's}",
 			fmt.Sprintf("a statement event is buffered with Type ok=%v, Query ok=%v, Timestamp ok=%v: the delivered change does not describe the logged statement", okType, okQ, okTS))
 	})
-	if n < 2 {
-		a.undecided("C01-R1", "query-event@parser", "-", "found %d statement-event constructions, expected 2", n)
+	if n < 1 {
+		a.undecided("C01-R1", "query-event@parser", "-", "found %d statement-event constructions, expected at least 1", n)
+		return
+	}
+	// every statement arm buffers one of these constructions before the next event is taken
+	appendOf := map[*ssa.BasicBlock]bool{}
+	for _, st := range r.Tran.stores() {
+		if st.Fn != r.Parser || st.Field != "" {
+			continue
+		}
+		kind, elems := bufferStoreKind(r, st.Store)
+		if kind != "append" || appendedCount(elems) != 1 {
+			continue
+		}
+		sl := elems.(*ssa.Slice)
+		for _, ref := range *sl.X.(*ssa.Alloc).Referrers() {
+			if ia, ok := ref.(*ssa.IndexAddr); ok {
+				for _, rr := range *ia.Referrers() {
+					if s2, ok := rr.(*ssa.Store); ok && good[resolve(s2.Val)] {
+						appendOf[st.Store.Block()] = true
+					}
+				}
+			}
+		}
+	}
+	for _, p := range ar.Preds {
+		switch p.Name {
+		case "Query/Create", "Query/Alter", "Query/Drop", "Query/Rename", "Query/Truncate", "Query/Set", "Query/Insert", "Query/Update", "Query/Delete":
+			esc := reachesAvoiding(p.Entry, r.LoopHead, func(b *ssa.BasicBlock) bool { return appendOf[b] }, nil) && !appendOf[p.Entry]
+			a.check(!esc, "C01-R1", "query-event@parser[arm="+p.Name+"]", w.posOf(p.Entry.Instrs[0]), "the statement is buffered as {category, query, timestamp} on every path of the arm",
+				"a logged statement of this kind can pass without being buffered as a change built from its own category, query and timestamp")
+		}
 	}
 }
 
